@@ -283,6 +283,7 @@ func c14W6(r *core.R) {
 		}
 	}
 	add("visited", wf.idTests, c14Nil, "id already in the visited set (emitted earlier)")
+	add("no-history", m.nonEmptyHistory().inverse(), c14Nil, "the lookup returned no version: the same as not found")
 	add("not-found", wf.notFound, 0, "history not found (no emission for an id without history; the result is checked by W3 notfound)")
 	cut := c14Edges{}
 	for _, rec := range wf.recs {
@@ -393,9 +394,13 @@ func c14W6(r *core.R) {
 			continue
 		}
 		abs, _, _ := m.exitVal(g, s)
+		aborting := false // a reason to end the whole iteration (error, cancellation) also lies on the way: a non-nil result is in order
+		for _, cl := range in {
+			aborting = aborting || cl.want == c14NonNil
+		}
 		for _, cl := range in {
 			switch {
-			case cl.want == c14Nil && abs != c14Nil:
+			case cl.want == c14Nil && abs != c14Nil && !aborting:
 				gr.bad = append(gr.bad, fmt.Sprintf("`%s` (%s) does not return nil for the reason %q: a relation requested twice, shared by two parents or lying on a reference cycle — all legal — aborts the iteration and the remaining requested relations are never emitted", m.nodeSrc(s.n), m.rel(s.n.pos()), cl.name))
 			case cl.want == c14NonNil && abs == c14Nil && len(in) == 1:
 				gr.bad = append(gr.bad, fmt.Sprintf("`%s` (%s) returns nil for the reason %q: the caller takes the id for walked and emits the parent although this walk was abandoned", m.nodeSrc(s.n), m.rel(s.n.pos()), cl.name))
